@@ -950,9 +950,12 @@ def multi_evidence(rng):
     slots = rng.sample([0, 1, 2, 3, 5, 8, 13], nslots)
     branches = []
     kinds = ["dynarray", "mapping", "bool-write", "address-write", "masked-write", "packed-write", "signed-use",
-             "numeric-use", "copy-from", "plain-read", "bytes32-compare"]
+             "numeric-use", "copy-from", "plain-read", "bytes32-compare", "unsigned-use", "address-use", "selector-use"]
+    wordish = ["bool-write", "address-write", "masked-write", "signed-use", "numeric-use", "unsigned-use", "address-use",
+               "plain-read", "bytes32-compare", "selector-use"]
     for s in slots:
-        for k in rng.sample(kinds, rng.randint(2, 4)):
+        pool = wordish if rng.random() < 0.4 else kinds
+        for k in rng.sample(pool, rng.randint(2, 4)):
             branches.append((s, k))
     rng.shuffle(branches)
     a.emit(0, "CALLDATALOAD", 0xe0, "SHR")
@@ -1000,6 +1003,15 @@ def multi_evidence(rng):
         elif k == "copy-from":
             other = rng.choice(slots)
             a.emit(other if other else ("push", 0, 1), "SLOAD", sp, "SSTORE")
+        elif k == "unsigned-use":
+            a.emit(rng.choice([5, 4]), sp, "SLOAD", rng.choice(["DIV", "MOD", "GT", "LT"]), 0x40 + s, "SSTORE")
+        elif k == "address-use":
+            if rng.random() < 0.5:
+                a.emit(sp, "SLOAD", rng.choice(["BALANCE", "EXTCODESIZE", "EXTCODEHASH"]), 0x50 + s, "SSTORE")
+            else:
+                a.emit(0, 0, 0, 0, 0, sp, "SLOAD", "GAS", "CALL", "POP")
+        elif k == "selector-use":
+            a.emit(sp, "SLOAD", 0xe0, "SHR", ("push", 0xa9059cbb, 4), "EQ", 0, "MSTORE")
         elif k == "plain-read":
             a.emit(sp, "SLOAD", 0, "MSTORE")
         elif k == "bytes32-compare":
